@@ -276,6 +276,9 @@ var targets = []target{
 	{pkg: "internal", fn: "InCollection", lean: "internal_InCollection"},
 	{pkg: "internal", fn: "GetIntersectionElem", lean: "internal_GetIntersectionElem"},
 	{pkg: "internal", fn: "HttpHeaderContainsToken", lean: "internal_HttpHeaderContainsToken"},
+	{pkg: "gws", fn: "responseWriter.Init", lean: "responseWriter_Init",
+		from: "c.b = binaryPool.Get", to: "return c",
+		doc: "the status line and the two fixed header lines every 101 response starts with"},
 	{pkg: "gws", fn: "responseWriter.WithHeader", lean: "responseWriter_WithHeader"},
 	{pkg: "gws", fn: "responseWriter.WithSubProtocol", lean: "responseWriter_WithSubProtocol"},
 	{pkg: "gws", fn: "Upgrader.doUpgradeFromConn", lean: "Upgrader_requestChecks",
